@@ -458,6 +458,11 @@ func VerifTxBlock() {
 		vrt.ObserveStr("error", err.Error())
 	}
 	vrt.Assert("C08.transaction-block-never-fails", err == nil)
+	// read as C05/C06: an entry that is not authorised, or that repeats one seen before (in an earlier
+	// block or earlier in this one, whatever became of the first copy), is IGNORED - it has no effect
+	// and in particular does not keep the block from being applied
+	vrt.Assert("C06.repeated-entries-are-ignored-not-fatal", err == nil)
+	vrt.Assert("C05.unauthorised-entries-are-ignored-not-fatal", err == nil)
 	if err != nil {
 		return
 	}
